@@ -74,15 +74,35 @@ def _pure_sel(t):
     return t.op in ('in', 'const') or (t.op == 'slice' and t.args[0].op == 'in')
 
 
+CFG_SSE2 = Cfg('sse2', defines=('GLM_FORCE_INTRINSICS',), flags=('-msse2',), headers=HDR + ('glm/gtc/type_aligned.hpp',))
+CFG_AVX2 = Cfg('avx2', defines=('GLM_FORCE_INTRINSICS',), flags=('-mavx2', '-mfma'), headers=HDR + ('glm/gtc/type_aligned.hpp',))
+NEEDS_X86 = True
+
+
 def cases(tier):
     cs = []
     for T, Q in _types(tier):
         cs += type_cases(T, Q)
+    # the aligned types of the SIMD configurations have their own product / transpose / outerProduct code (simd/matrix.h, func_matrix_simd.inl): same definitions
+    cs += [_tag(c, '@sse2') for c in type_cases('float', 'aligned_highp', CFG_SSE2)]
+    if tier == 'thorough':
+        cs += [_tag(c, '@sse2') for c in type_cases('float', 'aligned_mediump', CFG_SSE2)]
+        cs += [_tag(c, '@avx2') for c in type_cases('float', 'aligned_highp', CFG_AVX2)]
+        cs += [_tag(c, '@avx2') for c in type_cases('double', 'aligned_highp', CFG_AVX2)]
+        cs += [_tag(c, '@sse2') for c in type_cases('int', 'aligned_highp', CFG_SSE2)]
     cs += canaries()
     return cs
 
 
-def type_cases(T, Q):
+def _tag(c, suffix):
+    """distinct case / obligation names for the same rule set under another configuration"""
+    j = c.judge
+    c.name = c.name + suffix
+    c.judge = lambda ctx, j=j: [dict(r, id=r['id'] + suffix) for r in j(ctx)]
+    return c
+
+
+def type_cases(T, Q, CFG=CFG):
     cs = []
     if True:
         sc = G.scalar(T)
@@ -223,7 +243,7 @@ def type_cases(T, Q):
 
         # ---- gtx helpers (float and int where the header accepts them)
         if Q == 'highp' and T in ('float', 'double', 'int'):
-            cs += gtx_cases(T, Q, sc, V, M, A, zero, one, mod, tg)
+            cs += gtx_cases(T, Q, sc, V, M, A, zero, one, mod, tg, CFG=CFG)
     return cs
 
 
@@ -263,7 +283,7 @@ def eq_case(name, k, ty, neg, fl):
     return R.Case(name, [k], judge)
 
 
-def gtx_cases(T, Q, sc, V, M, A, zero, one, mod, tg):
+def gtx_cases(T, Q, sc, V, M, A, zero, one, mod, tg, CFG=CFG):
     cs = []
     fl = sc.isfloat
     cfg = CFG
